@@ -156,7 +156,8 @@ def _dfs_edges_rust(
 
     if target is not None:
         if result["target_reached"]:
-            return Result(list(result["path"]), len(result["path"]) - 1, result["iterations"], 0)
+            # A DFS path is not necessarily shortest: FEASIBLE, as in the Python implementation
+            return Result(list(result["path"]), len(result["path"]) - 1, result["iterations"], 0, Status.FEASIBLE)
         return Result(None, float("inf"), result["iterations"], 0, Status.INFEASIBLE)
 
     # Same answer as the Python path: the reachable nodes in sorted order, not the visit order
